@@ -7,7 +7,7 @@ from .. import ref as R, gen
 
 NBATCH = {'quick': 16, 'thorough': 64}
 BUDGET_S = {'quick': 80, 'thorough': 180}
-PER_BATCH = {'quick': 120, 'thorough': 2500}
+PER_BATCH = {'quick': 250, 'thorough': 4000}
 FLOORS = {
     'quick': {'distinct_nontrivial': 2500, 'modular-grammars': 500, 'inputs-judged': 8000, 'feature:transitive-dependency': 3000, 'feature:rename': 2500,
               'feature:multi-import': 2500, 'feature:same-named-local-definition': 1500, 'feature:override-rule': 1000, 'feature:override-dependency': 500,
